@@ -4,6 +4,24 @@ from .core import And, Or, Not, Implies, Ite
 from .seq import MSeq, SSeq, SByteArray
 
 
+def concrete(v):
+    """True for plain python values (symx code is not instrumented, so type()
+    is the real one here)."""
+    return type(v) in (int, bool, bytes, str, type(None))
+
+
+def neq_pairs(got, exp):
+    """[a == b ...] obligations, dropping pairs that are concretely equal."""
+    out = []
+    for a, b in zip(got, exp):
+        if type(a) is int and type(b) is int:
+            if a != b:
+                out.append(False)
+            continue
+        out.append(a == b)
+    return out or [True]
+
+
 def snap(m):
     """Immutable snapshot of a byte region."""
     if isinstance(m, MSeq):
@@ -41,3 +59,70 @@ def rat_pair(v):
     from fractions import Fraction
     f = Fraction(v)
     return None
+
+
+class MemStream:
+    """In-memory binary stream usable in both modes: write() collects
+    chunks; readline()/read() scan the concatenation (symbolic elements are
+    compared with 0x0a, forking)."""
+
+    def __init__(self, data=None):
+        self.items = list(data) if data is not None else []
+        self.pos = 0
+        self.writes = 0
+
+    def write(self, b):
+        self.writes += 1
+        if isinstance(b, SSeq):
+            self.items.extend(b.items)
+        else:
+            self.items.extend(bytes(b))
+        return len(b)
+
+    def seek(self, pos, whence=0):
+        self.pos = pos
+
+    def tell(self):
+        return self.pos
+
+    def getvalue(self):
+        from . import seq as _seq
+        return _seq.make(_seq.BYTES, self.items)
+
+    def read(self, n=-1):
+        from . import seq as _seq
+        if n is None or n < 0:
+            out = self.items[self.pos:]
+        else:
+            out = self.items[self.pos:self.pos + n]
+        self.pos += len(out)
+        return _seq.make(_seq.BYTES, out)
+
+    def readline(self):
+        from . import seq as _seq
+        out = []
+        items = self.items
+        n = len(items)
+        while self.pos < n:
+            c = items[self.pos]
+            out.append(c)
+            self.pos += 1
+            if c == 10:
+                break
+        return _seq.make(_seq.BYTES, out)
+
+    def __iter__(self):
+        while True:
+            line = self.readline()
+            if len(line) == 0:
+                return
+            yield line
+
+    def close(self):
+        pass
+
+    def __enter__(self):
+        return self
+
+    def __exit__(self, *a):
+        return False
